@@ -2,6 +2,7 @@ package main
 
 import (
 	"fmt"
+	"os"
 	"sort"
 
 	"golang.org/x/tools/go/ssa"
@@ -18,6 +19,32 @@ func debugDump(w *World, what string, args []string) {
 		for _, o := range r.Obls {
 			fmt.Println(o.Rule, o.Key, o.Status, o.Detail)
 		}
+	case "lossless":
+		r := NewReport("C12", "quick", "/tmp/dbg")
+		r.W = w
+		var fns []*ssa.Function
+		if len(args) > 0 && args[0] == "reach" {
+			var entries []*ssa.Function
+			for _, n := range args[1:] {
+				if fn := w.Func(n); fn != nil {
+					entries = append(entries, fn)
+				} else {
+					fmt.Println("unresolved entry", n)
+				}
+			}
+			for fn := range w.libReach(entries) {
+				fns = append(fns, fn)
+			}
+		} else {
+			fns = append(fns, w.LibFuncs()...)
+		}
+		total, proved := RunLossless(w, r, "lossless", newBoundsRun(w), fns)
+		for _, o := range r.Obls {
+			if o.Status != StOK || os.Getenv("SFNT_LLALL") != "" {
+				fmt.Println(o.Pos, o.Key, o.Status, o.Detail)
+			}
+		}
+		fmt.Println("total", total, "proved", proved)
 	case "callkills":
 		debugCallKills(w, args)
 	case "writes":
